@@ -6,8 +6,10 @@ placement of 1..2 short names (per layer: absent / defined locally / referenced 
 DIAG-COMM-REF + DIAG-VARIABLE-REF)  x  every NOT-INHERITED set over the (PARENT-REF, name) pairs the parent
 really offers.  Each placement is instantiated at once in all categories that use the mechanism (services,
 single-ECU jobs, DOPs, structures, tables, global negative responses, diag variables, functional classes,
-state charts, additional audiences, unit groups); every object carries `<layer>:<category>:<name>` in LONG-NAME.
-The hierarchy is emitted as ODX XML (odxmodel.emit / emit_hier) and loaded by the real loader in strict mode.
+state charts, additional audiences, unit groups; in the small spaces also the other eight kinds of data objects
+of a DIAG-DATA-DICTIONARY-SPEC); every object carries `<layer>:<category>:<name>` in LONG-NAME.
+The hierarchy is emitted as ODX XML (odxmodel.emit / emit_hier) and loaded by the real loader in strict mode;
+independent hierarchies share a database (own container each) when the model predicts that all of them load.
 
 Oracle (odxmodel.refinherit, no odxtools): per layer and category the visible (short name -> marker) map; strict
 loading raises OdxError iff an equal-priority clash between different objects stays unresolved somewhere;
@@ -32,6 +34,8 @@ PROPERTY = "C09"
 LEVEL = "exploration"
 
 NAMES = ["a", "b"]
+# (rank of ECU-SHARED-DATA among the parent types, diag variables of shared data below a PROTOCOL layer): the
+# readings a database may follow -- as a whole.  Remove entries to demand one reading.
 READINGS = [("highest", "transparent"), ("highest", "opaque"), ("lowest", "transparent"), ("lowest", "opaque")]
 BATCH = 12
 DDDS_GETTER = {"sfield": "static_fields", "eopfield": "end_of_pdu_fields", "dlfield": "dynamic_length_fields",
